@@ -88,12 +88,17 @@ type disturbance struct {
 	kind string // before | after | crash | drift-edit | drift-delete | drift-label | drift-rev
 }
 
+// lastApplic: for every API-call index of the last reference run, which targeted disturbances would find something to act on
+// (bit 0: an ObjectSetPhase object exists; bit 1: a revision paused by its deployment exists)
+var lastApplic []uint8
+
 type stagedRunner struct {
-	w     *World
-	calls int
-	dist  []disturbance
-	rng   *rand.Rand
-	fired int
+	applic []uint8
+	w      *World
+	calls  int
+	dist   []disturbance
+	rng    *rand.Rand
+	fired  int
 }
 
 func (sr *stagedRunner) readyWidgets() {
@@ -174,6 +179,22 @@ func (sr *stagedRunner) runPass(actor string, target Key) (int, bool) {
 				}
 			}
 		}
+		if sr.dist == nil {
+			var b uint8
+			for _, k := range w.Store.Keys() {
+				if k.Group != pkoGroup {
+					continue
+				}
+				if k.Kind == "ObjectSetPhase" {
+					b |= 1
+				} else if k.Kind == "ObjectSet" {
+					if m := w.Store.Snapshot(k); m != nil && len(ownerRefs(m)) > 0 && getStr(nestedMap(m, "spec"), "lifecycleState") == "Paused" {
+						b |= 2
+					}
+				}
+			}
+			sr.applic = append(sr.applic, b)
+		}
 		sr.calls++
 		w.Step(p, fault)
 	}
@@ -234,6 +255,9 @@ func RunStaged(w *World, sc StagedScenario, label string, dist []disturbance, se
 	if !sr.settle(60) {
 		ok = false
 	}
+	if dist == nil && ref == nil {
+		lastApplic = sr.applic
+	}
 	state = w.StateDigest()
 	args := map[string]any{"state": state, "dynRefs": w.Dyn.Refs(), "hasRef": ref != nil, "ref": []any{}, "calls": sr.calls, "fired": sr.fired}
 	if ref != nil {
@@ -262,6 +286,11 @@ func init() {
 			for at := 0; at < calls; at++ {
 				for _, k := range kinds {
 					if sc.NoDrift && strings.HasPrefix(k, "drift") && !containsStr(sc.Drifts, k) {
+						continue
+					}
+					// targeted disturbances only where they find something to act on in the reference run (a sampled
+					// disturbance that is a no-op tells nothing)
+					if at < len(lastApplic) && ((k == "drift-phase" && lastApplic[at]&1 == 0) || (k == "drift-child-lifecycle" && lastApplic[at]&2 == 0)) {
 						continue
 					}
 					cands = append(cands, cand{[]disturbance{{at, k}}, fmt.Sprintf("%s@%d", k, at)})
